@@ -56,9 +56,6 @@ Theorem C19_height_clip : forall ws w h t st' txt,
 Proof. exact height_clip_lines_weak. Qed.
 Print Assumptions C19_height_clip.
 
-(** record output ([name=value] columns) is checked on the real binary only: format_record_as_columns
-    keeps per-process width memory that the model does not carry *)
-Definition C19_records_are_checked_by_the_harness : Prop := True.
 
 (** *** record output ([name=value] columns) *)
 
